@@ -5,6 +5,8 @@ From TarsV Require Xlate.TarsRequestEquiv Xlate.CodecEquiv Xlate.ParseEquiv Xlat
 Print Assumptions TarsRequestEquiv.tr_TarsRequest_equiv.
 Print Assumptions CodecEquiv.tr_WriteHead_equiv.
 Print Assumptions CodecEquiv.tr_WriteInt64_equiv.
+Print Assumptions CodecEquiv.tr_WriteUint32_equiv.
+Print Assumptions CodecEquiv.tr_WriteString_equiv.
 Print Assumptions ParseEquiv.tr_Parse_build_equiv.
 Print Assumptions BSWLEquiv.tr_BSWL_range_equiv.
 Print Assumptions BSWLEquiv.tr_BSWL_scale_equiv.
